@@ -1,7 +1,7 @@
 (** C07: witnesses (by computation) of the inputs on which the faithful model — and the real
     code, see notes/C07.md and known_findings.d/C07.json — does NOT round-trip. *)
 From Coq Require Import List NArith ZArith Bool String Ascii.
-From Atlas Require Import Base.Bytes Lex.LexModel Lex.ClosedModel Lex.ClosedBeginModel Lex.FmtModel Lex.QuoteModel.
+From Atlas Require Import Base.Bytes Lex.LexModel Lex.ClosedModel Lex.ClosedBeginModel Lex.FmtModel Lex.QuoteModel Lex.FmtImportModel.
 Import ListNotations.
 
 Fixpoint bs (s : string) : bytes :=
@@ -143,3 +143,35 @@ Definition w_dbmate_options : bytes :=
 Lemma dbmate_options_repaired :
   texts (read FDBMate opts_generic w_dbmate_options) = Some [bs "CREATE TABLE t1 (a int);"; bs "CREATE TABLE t2 (a int);"].
 Proof. vm_compute. reflexivity. Qed.
+
+(** * Statements that end in a comment (import)
+    A golang-migrate file whose statements end in the five ways the import has to survive: a line
+    comment and the terminator on the next line, a block comment and the terminator on the next
+    line, the delimiter inside the line comment, blank lines before the terminator, a comment
+    after the terminator. *)
+Definition w_tails : bytes :=
+  bs ("CREATE TABLE t1 (a int) -- seed row" ++ nl ++ ";" ++ nl ++
+      "INSERT INTO t1 VALUES (1) /* seed row */" ++ nl ++ ";" ++ nl ++
+      "CREATE INDEX i1 ON t1 (a) -- c;" ++ nl ++ ";" ++ nl ++
+      "SELECT 1" ++ nl ++ nl ++ ";" ++ nl ++
+      "SELECT 2;  -- trailing" ++ nl ++ "SELECT 3;" ++ nl)%string.
+Definition w_tails_name : bytes := bs "1_a.up.sql".
+
+(** NOT the code — the counterfactual spelling strings.TrimSpace(strings.TrimSuffix(s.Text, ";")):
+    the newline that ends a trailing line comment is trimmed, the formatter's ";" lands inside the
+    comment.  Only used by the sensitivity clause of C07_import_cmd_text. *)
+Definition import_cmd_trimspace (s : Stmt) : bytes :=
+  (List.concat (List.map (fun c => if has_suffix c S_NL then c else c ++ S_NL) (Comments s))
+   ++ trim_space (trim_suffix (Text s) delimiter))%list.
+Definition import_plan_trimspace (version desc : bytes) (ss : list Stmt) : plan :=
+  mkPlan version desc [] [] (List.map (fun s => mkChange (import_cmd_trimspace s) [] []) ss).
+
+(** * The Goose reader and comments around the terminator (hand-made files)
+    pressly/goose ignores a trailing "--" comment when it looks for the line-final ";"
+    (sqlparser: endsWithSemicolon); GooseFile.StmtDecls tests the trimmed line's last byte. *)
+Definition w_goose_trailing : bytes :=
+  bs ("-- +goose Up" ++ nl ++ "SELECT 1;  -- trailing" ++ nl ++ "SELECT 2;" ++ nl ++
+      "-- +goose Down" ++ nl ++ "DROP TABLE t;" ++ nl)%string.
+Definition w_goose_comment_semi : bytes :=
+  bs ("-- +goose Up" ++ nl ++ "SELECT 1 -- c;" ++ nl ++ ";" ++ nl ++ "SELECT 2;" ++ nl ++
+      "-- +goose Down" ++ nl ++ "DROP TABLE t;" ++ nl)%string.
